@@ -323,3 +323,65 @@ func ROSetups() [][]ops.Op {
 		{},
 	}
 }
+
+// NameAlphabet: a name universe with SQL wildcards, dots, spaces, non-ASCII and a >100-byte component.
+func NameAlphabet() []ops.Op {
+	long := "/" + "L0ng" + string(make([]byte, 0)) + repeat("n", 116)
+	comps := []string{"/a_", "/ab", "/a%", "/a b", "/ä", "/a.b", "/..a", long}
+	a := []ops.Op{}
+	for _, c := range comps {
+		a = append(a, ops.Op{K: "mkdir", P: c})
+	}
+	for _, c := range comps[:5] {
+		a = append(a, ops.Op{K: "put", P: c + "/x", C: "in " + c})
+	}
+	a = append(a, ops.Op{K: "put", P: "/a_", C: "file"}, ops.Op{K: "put", P: long, C: "long"}, ops.Op{K: "put", P: "/a.b/x.gz", C: "not compressed"})
+	for _, c := range comps {
+		a = append(a, ops.Op{K: "remove", P: c})
+	}
+	a = append(a, ops.Op{K: "removeall", P: "/a_"}, ops.Op{K: "removeall", P: "/a%"},
+		ops.Op{K: "rename", P: "/a_", Q: "/ab"}, ops.Op{K: "rename", P: "/ab", Q: "/a%"}, ops.Op{K: "rename", P: "/a b", Q: long}, ops.Op{K: "rename", P: "/a_/x", Q: "/ä/x"}, ops.Op{K: "rename", P: "/ä", Q: "/..a"},
+		ops.Op{K: "chmod", P: "/a%", N: 0o700})
+	return a
+}
+
+func repeat(s string, n int) string {
+	out := ""
+	for i := 0; i < n; i++ {
+		out += s
+	}
+	return out
+}
+
+// HandleMixAlphabet: open handles kept across other calls (DESIGN §6 C01 alphabet H).
+func HandleMixAlphabet() []ops.Op {
+	rw := os.O_RDWR
+	return []ops.Op{
+		{K: "mkdir", P: "/a"},
+		{K: "put", P: "/f", C: "0123456789"},
+		{K: "hopen", P: "/f", N: os.O_RDONLY, H: 0},
+		{K: "hopen", P: "/f", N: rw, H: 1},
+		{K: "hopen", P: "/a/f", N: rw | os.O_CREATE | os.O_TRUNC, H: 1},
+		{K: "hwrite", H: 1, C: "x"},
+		{K: "hreadall", H: 0},
+		{K: "hreadall", H: 1},
+		{K: "hsync", H: 1},
+		{K: "hclose", H: 0},
+		{K: "hclose", H: 1},
+		{K: "remove", P: "/f"},
+		{K: "remove", P: "/a/f"},
+		{K: "rename", P: "/f", Q: "/a/f"},
+		{K: "rename", P: "/a/f", Q: "/f"},
+	}
+}
+
+// DeepAlphabet: deep nesting, creation under regular files, a directory with many children.
+func DeepAlphabet() []ops.Op {
+	a := []ops.Op{
+		{K: "mkdirall", P: "/p"}, {K: "mkdirall", P: "/p/q"}, {K: "mkdirall", P: "/p/q/r"}, {K: "mkdirall", P: "/p/q/r/s"},
+		{K: "put", P: "/p/f", C: "x"}, {K: "mkdir", P: "/p/f/sub"}, {K: "put", P: "/p/f/sub", C: "y"}, {K: "mkdirall", P: "/p/f/a/b"},
+		{K: "put", P: "/p/q/r/s/leaf", C: "deep"}, {K: "removeall", P: "/p/q"}, {K: "rename", P: "/p/q", Q: "/z"}, {K: "many", P: "/m"},
+		{K: "remove", P: "/m/c05"}, {K: "rename", P: "/m", Q: "/p/m"},
+	}
+	return a
+}
